@@ -89,7 +89,7 @@ class Reference:
         self.heap: list = []
         self.seq = 0  # creation order of everything that sorts (events + continuations)
         self.pid = 0  # creation order of harness events
-        self.now = 0
+        self.now = program.get("start_ns", 0)
         self.log: list = []
         self.handles: dict[str, dict] = {}
         self.futures: dict[str, _RFuture] = {}
@@ -570,6 +570,8 @@ class RealRun:
         kw = {}
         if self.trace_recorder is not None:
             kw["trace_recorder"] = self.trace_recorder
+        if self.p.get("start_ns"):
+            kw["start_time"] = Instant(self.p["start_ns"])
         self.sim = Simulation(
             entities=list(self.entities),
             end_time=Instant(end) if end is not None else None,
